@@ -43,7 +43,7 @@ prop("C02", ["TAB-2", "TAB-1~flag:.*is_16_bit", "LAY-0", "LAY-1", "LAY-3", "LAY-
      "translate_statements run in the order expansion, collection, resolution, translation, sizing, addressing, fix-up, back-patch, each over all statements; the address pass is a single "
      "forward accumulation of code_pkg.size; every store into the symbol table is dominated by the redefinition check and undefined symbols raise; listing and image concatenate the same three fields.",
      "numeric equality of listing addresses and image offsets for concrete programs (it follows from the rules only where the width findings are repaired).", ASM_ASSUME)
-prop("C03", ["REL-1", "REL-3", "REL-5", "ENC-1", "ENC-3", "TAB-1", "TAB-2", "LAY-1~translate_statements:(fix-up-index|sizing-index)", "ENC-2~:size-constant"],
+prop("C03", ["REL-1", "REL-3", "REL-5", "ENC-1", "ENC-3", "TAB-1", "TAB-2", "LAY-1~translate_statements:(fix-up-index|sizing-index)", "ENC-2"],
      "affine identity: the value emitted for every branch arm equals A[target] - A[this+1] modulo the field width, with the summed slices non-degenerate on the arm's guard; short branches are "
      "rejected exactly outside -128..+127; PC-relative sizing: each arm sets (size increment, max_size, post-byte choice, width hint) consistently, 8-bit is chosen only under an upper estimate "
      "that sums max_size over a window covering the displacement including the instruction itself, thresholds 127/128; label+n operands take their index through the address-expression predicate "
@@ -63,7 +63,7 @@ prop("C06", ["CAS-1~:(name|name-source|name-filter|source|field\\d+\\(\\w+\\)|fi
      "the reader consumes exactly the frames the writer produces: header signature, each header field read at the offset the writer stores it and delivered to the matching CoCoFile field, "
      "name length, where block search resumes, data blocks stepped over by exactly 4 + len + 2 with payload copied from offset 4, EOF frame length; writers never modify the data they are given.",
      "equality of data for all contents and lengths; tolerance of arbitrary foreign tapes.")
-prop("C07", ["DSK-1", "DSK-2", "DSK-3", "DSK-4", "DSK-5", "DSK-12", "DSK-13", "VF-8", "CAS-3", "DET-2~^(?!Program\\.|Statement\\.|assembler:)", "DSK-8", "DSK-7~(granule_in_use|first-free)"],
+prop("C07", ["DSK-1", "DSK-2", "DSK-3", "DSK-4", "DSK-5", "DSK-12", "DSK-13", "VF-8", "CAS-3", "DET-2~^(?!Program\\.|Statement\\.|assembler:)", "DSK-8", "DSK-7~(granule_in_use|first-free)", "DSK-6~GRANULE_FILL_ORDER"],
      "geometry constants and the granule->offset map for all 68 granules; directory entry layout of writer and reader against the Disk BASIC layout with bounded field writes; preamble/postamble "
      "read/write siblings agree on flags, offsets and lengths and on which file kind gets which; FAT links, terminator C0+sectors, reader masks; stream length computed identically by the three "
      "length functions (with and without trailer), sector and granule counts consistent for every length.",
@@ -76,12 +76,12 @@ prop("C09", ["VF-1", "VF-4", "VF-6", "VF-8", "CAS-5", "DSK-5", "DSK-7", "DSK-6",
      "append = list the existing image, append the new file at the end, rebuild the whole list in order into a fresh container; cassette writers only append to the buffer; disk allocation only takes "
      "free granules and free directory slots; a fresh DiskFile owns its own buffer (no shared class-level image); sniffing order disk, cassette, binary with matching kinds.",
      "the property over histories of interleaved add/save/re-open; kind recognition by content (recorded finding VF-6).")
-prop("C10", ["VF-1~^save_virtual_file", "VF-2", "VF-3", "VF-4", "VF-6", "VF-8", "CLI-1", "CLI-3", "VF-5~^(?!add_coco_file)", "CLI-4~:(kind|open|save|end):", "CLI-5~:(kind|sequence|append):", "VF-9", "CAS-5~read_file:refuses-field"],
+prop("C10", ["VF-1~^save_virtual_file", "VF-2", "VF-3", "VF-4", "VF-6", "VF-8", "CLI-1", "CLI-3", "VF-5~^(?!add_coco_file)", "CLI-4~:(kind|open|save|end):", "CLI-5~:(kind|sequence|append):", "VF-9", "CAS-5~read_file:refuses-field", "DSK-5~list_files:(scan|skips-unreadable)"],
      "every path to a host write in save_virtual_file takes the false edge of `file_exists and not append_mode`, whose true edge only raises; the only host write is open(name, 'wb') in "
      "SourceFile.write_binary_contents, reached only through write_file from save_virtual_file and writing the whole buffer; file_exists is set exactly under os.path.exists; a kind mismatch raises; "
      "every CLI save site goes construct -> open -> add* -> save(append_mode=args.append) with the container kind of its switch; handlers report the error.",
      "nothing further of the control-flow part; content sniffing of arbitrary bytes is a recorded finding.")
-prop("C11", ["CLI-1", "VF-1", "VF-3", "CAS-3", "CAS-1", "CAS-5", "DSK-2", "DSK-3", "DSK-5", "DSK-12", "DSK-13", "LAY-1", "DET-2~^(?!Program\\.|Statement\\.)", "WID-10", "VF-5", "DSK-8~^(?!add_file:allocation:)", "CLI-5", "VF-9", "DSK-1~seek_granule", "DSK-6~GRANULE_FILL_ORDER"],
+prop("C11", ["CLI-1", "VF-1", "VF-3", "CAS-3", "CAS-1", "CAS-5", "DSK-2", "DSK-3", "DSK-5", "DSK-12", "DSK-13", "LAY-1", "DET-2~^(?!Program\\.|Statement\\.)", "WID-10", "VF-5", "DSK-8~^(?!add_file:allocation:)", "CLI-5", "VF-9", "DSK-1~seek_granule", "DSK-6~GRANULE_FILL_ORDER", "TAB-1~flag:.*(is_origin|is_name)$"],
      "the single CoCoFile built by assembler.main takes name = NAM or --name, load = exec = origin, data = get_binary_array() of the Program that was assembled, type 02, data type 00; each switch "
      "builds the container of its kind and adds that very object; cassette/disk blocks are dominated by the no-name guard; BinaryFile appends the data only; containers do not consume the data "
      "(the same object is written to several containers).",
@@ -91,7 +91,7 @@ prop("C12", ["WID-1", "WID-3", "WID-8", "WID-5", "WID-6", "LAY-5", "ENC-4", "ENC
      "by a grammar-valid operand only (probe spellings outside the grammar must raise); PSH/PUL/TFR/EXG reject unknown, own-stack and mixed-size registers; parse-time numeric limits; the width of "
      "`additional` at every sink against the mode's width.",
      "acceptance/rejection of arbitrary operand strings beyond the probe set and the classification cascade.", ASM_ASSUME)
-prop("C13", ["TERM-1", "ESC-1", "ESC-2", "CLI-1", "LAY-0", "TXT-2", "INC-1~(read-errors|codec|trail(?!-identity))", "EXP-1~SymbolValue.resolve"],
+prop("C13", ["TERM-1", "ESC-1", "ESC-2", "CLI-1", "LAY-0", "TXT-2", "INC-1~(read-errors|codec|trail(?!-identity))", "EXP-1~SymbolValue.resolve", "WID-5"],
      "the sizing loop terminates because sizing fixes the size on every path; call cycles reachable from process are bounded (include trail checked, the others triaged); the explicit-raise escape "
      "fixpoint over the resolved call graph leaves only ParseError/TranslationError out of Program.process; every pass is wrapped by a handler that converts any exception into a diagnostic naming "
      "the statement; parse-phase first/last-character accesses are dominated by emptiness checks; the CLI handlers exit non-zero before any save.",
@@ -101,7 +101,7 @@ prop("C14", ["CAS-1~^(?!.*:(name-source|name-filter|source)$).*", "CAS-4", "CAS-
      "established by pairing every byte written with a checksum term, trailer 55; data payload byte i = data[i], continuation at the number of bytes written; file order leader, name-file, leader, "
      "data, EOF; only appends.",
      "nothing input-dependent: this property is decided completely under the stated assumptions.", ["data bytes are 0..255 and name characters are single-byte"])
-prop("C15", ["DSK-6", "DSK-7", "DSK-12", "DSK-13", "DSK-4~^(?!read_data|list_files)", "VF-1", "DET-2~^(?!Program\\.|Statement\\.|assembler:)", "DET-3~^(?!assembler:)", "CLI-3", "VF-5", "DSK-8~(:allocation|:fat|:length|:directory|:data|:sequence|allocation-count|size-guard|length-kind|\\[empty)", "VF-2", "CLI-4~:(save|end):", "DSK-2~write_dir_entry:(nul|name-characters|position)"],
+prop("C15", ["DSK-6", "DSK-7", "DSK-12", "DSK-13", "DSK-4~^(?!read_data|list_files)", "VF-1", "DET-2~^(?!Program\\.|Statement\\.|assembler:)", "DET-3~^(?!assembler:)", "CLI-3", "VF-5", "DSK-8~(:allocation|:fat|:length|:directory|:data|:sequence|allocation-count|size-guard|length-kind|\\[empty)", "VF-2", "VF-4~open_virtual_file:kind-mismatch", "CLI-4~:(save|end):", "DSK-2~write_dir_entry:(nul|name-characters|position)"],
      "the fill order offers all 68 granules once; allocation only of free granules, exhaustion raises; directory scan covers at least 68 slots and a full directory raises; granule count = "
      "floor(stream/2304)+1 for every stream length; the image is rebuilt in memory before the host file is touched.",
      "exact granule counts for concrete sequences of additions.")
